@@ -3,7 +3,8 @@
 Nothing in the library is instrumented: the transport is replaced through
 asyncio.open_connection, time through the event loop's clock and the `time` global of the
 modules that read time.monotonic, observation goes through the public hook / broker plug-ins.
-Every run is deterministic (no wall clock, no randomness apart from the caller's PRNG)."""
+Every run is deterministic (no wall clock, no randomness apart from the caller's PRNG, task hashes independent of
+memory addresses)."""
 import asyncio
 import heapq
 import logging
@@ -12,12 +13,30 @@ import struct
 T0 = 1000.0
 
 
+class DetTask(asyncio.Task):
+    """a Task whose hash does not depend on its memory address: the library iterates over sets of tasks
+    (`for task in pending_tasks`), so the order in which it ends them would otherwise change from run to run.
+    `VLoop.task_order` (1 or 7) picks one of the two orders for consecutive tasks in a small set."""
+    _count = 0
+
+    def __init__(self, coro, *, loop=None, **kw):
+        loop._task_count += 1
+        self._det_hash = loop._task_count * loop.task_order      # needed by super().__init__ (set of all tasks)
+        super().__init__(coro, loop=loop, **kw)
+
+    def __hash__(self):
+        return self._det_hash
+
+
 class VLoop(asyncio.SelectorEventLoop):
     """event loop whose clock jumps to the next timer when nothing is ready"""
+    task_order = 1
 
     def __init__(self):
         super().__init__()
         self._vt = T0
+        self._task_count = 0
+        self.set_task_factory(lambda loop, coro, **kw: DetTask(coro, loop=loop, **kw))
 
     def time(self):
         return self._vt
@@ -277,7 +296,7 @@ class Hook:
 
 
 class Sim:
-    def __init__(self, **esme_kw):
+    def __init__(self, task_order=1, **esme_kw):
         import aiosmpplib
         import aiosmpplib.esme as em
         import aiosmpplib.correlator as cm
@@ -286,6 +305,7 @@ class Sim:
         from aiosmpplib.hook import AbstractHook
         self.em = em
         self.loop = VLoop()
+        self.loop.task_order = task_order
         asyncio.set_event_loop(self.loop)
         # fire-and-forget tasks of the library (keep-alive probes) may die with the connection: not an event for stderr
         self.loop.set_exception_handler(lambda loop, ctx: None)
